@@ -188,3 +188,170 @@ Proof. intro c; split; [split; cbn; [constructor | reflexivity] | cbn; lia]. Qed
 
 Lemma copy_wf : forall s, wf s -> wf (copy s).
 Proof. intros s [[Hn Hl] _]; split; [split; auto | cbn; lia]. Qed.
+
+(** ---------------------------------------------------------------- the snapshot invariant *)
+
+Lemma In_firstn : forall (A : Type) n (l : list A) x, In x (firstn n l) -> In x l.
+Proof. induction n; destruct l; cbn; intros; try tauto. destruct H; auto. Qed.
+
+Lemma set_revs_eqv : forall t r, eqv (set_revs t r) t.
+Proof. intros; constructor; ss; auto; pk. Qed.
+
+Section Revert.
+  Variable s0 : state.
+  Hypothesis wf0 : wf s0.
+
+  (** [s0]: the state on which Snapshot() is called; it returns [st_nextrev s0] *)
+  Definition Good (s : state) : Prop :=
+    wf s /\ st_nextrev s0 < st_nextrev s /\
+    exists es rest,
+      st_journal s = es ++ st_journal s0 /\ eqv (rewind (length es) s) s0 /\
+      st_revs s = st_revs s0 ++ (st_nextrev s0, length (st_journal s0)) :: rest /\
+      Forall (fun r => (length (st_journal s0) <= snd r)%nat) rest.
+
+  (** the snapshot has been invalidated (reverted past, or journal cleared) and can never come back *)
+  Definition Dead (s : state) : Prop :=
+    wf s /\ st_nextrev s0 < st_nextrev s /\ ~ In (st_nextrev s0) (map fst (st_revs s)).
+
+  Lemma good_init : Good (fst (snapshot s0)).
+  Proof.
+    split; [apply snapshot_wf; auto|]. unfold snapshot; ss. split; [lia|].
+    exists nil, nil. split; [reflexivity|split; [|split; [reflexivity|constructor]]]. cbn [length rewind]. constructor; ss; auto; pk.
+  Qed.
+
+  Lemma good_plain : forall s o, Good s -> plain o = true -> Good (fst (step s o)).
+  Proof.
+    intros s o (Hw & Hn & es & rest & J & E & R & F) Hp.
+    pose proof (step_wf s o Hw) as Hw'.
+    destruct Hw as [Hk _]. destruct (step_ext s o Hk Hp) as (R' & N' & _ & es' & J' & E').
+    split; auto. split; [rewrite N'; auto|].
+    exists (es' ++ es), rest. split; [|split; [|split]]; auto.
+    - rewrite J', J, app_assoc; reflexivity.
+    - rewrite app_length, rewind_add. eapply eqv_trans; [|exact E]. apply rewind_eqv; auto.
+      destruct (rewind_journal (length es') (fst (step s o))) as (A & _). rewrite A, J'.
+      rewrite skipn_app, skipn_all, Nat.sub_diag. reflexivity.
+    - rewrite R'; auto.
+  Qed.
+
+  Lemma good_snapshot : forall s, Good s -> Good (fst (snapshot s)).
+  Proof.
+    intros s (Hw & Hn & es & rest & J & E & R & F).
+    split; [apply snapshot_wf; auto|]. unfold snapshot; ss. split; [lia|].
+    exists es, (rest ++ [(st_nextrev s, length (st_journal s))]). split; [|split; [|split]]; auto.
+    - eapply eqv_trans; [|exact E]. apply rewind_eqv; [|reflexivity].
+      constructor; ss; auto; pk.
+    - rewrite R, <- app_assoc. reflexivity.
+    - apply Forall_app; split; auto. constructor; [|constructor]. cbn [snd]. rewrite J, app_length. lia.
+  Qed.
+
+  Lemma ids_below : forall i, In i (map fst (st_revs s0)) -> i < st_nextrev s0.
+  Proof. intros i H. destruct wf0 as [_ A]. apply (asc_In _ _ _ _ A H). Qed.
+
+  Lemma good_revert : forall s i, Good s -> Good (fst (revert_to s i)) \/ Dead (fst (revert_to s i)).
+  Proof.
+    intros s i G. pose proof G as (Hw & Hn & es & rest & J & E & R & F).
+    pose proof (revert_wf s i Hw) as Hw'.
+    pose proof (revert_to_spec s i) as H. cbn zeta in H.
+    set (idx := search_rev (st_revs s) i 0) in *.
+    destruct (nth_error (st_revs s) idx) as [[i' jidx]|] eqn:En; [destruct (N.eqb i' i)|];
+      rewrite H in *; cbn [fst] in *; auto.
+    set (k := (length (st_journal s) - jidx)%nat) in *.
+    destruct (rewind_journal k s) as (RJ & RR & RN).
+    destruct (Nat.le_gt_cases idx (length (st_revs s0))) as [Hle|Hgt].
+    - (* the target is the snapshot itself or older: it is gone for good *)
+      right. split; auto. split; [ss; rewrite RN; auto|]. ss.
+      rewrite R, firstn_app. replace (idx - length (st_revs s0))%nat with O by lia. cbn [firstn]. rewrite app_nil_r.
+      intro Hi.
+      assert (In (st_nextrev s0) (map fst (st_revs s0))).
+      { apply in_map_iff in Hi. destruct Hi as (x & Hx1 & Hx2). apply in_map_iff. exists x; split; auto.
+        eapply In_firstn; eauto. }
+      apply ids_below in H0. lia.
+    - (* a younger snapshot: still Good, with a shorter journal suffix *)
+      left. split; auto. split; [ss; rewrite RN; auto|].
+      assert (Hm : nth_error rest (idx - length (st_revs s0) - 1) = Some (i', jidx)).
+      { rewrite R in En. rewrite nth_error_app2 in En by lia.
+        destruct (idx - length (st_revs s0))%nat as [|m] eqn:Ed; [lia|]. cbn in En.
+        replace (S m - 1)%nat with m by lia. exact En. }
+      assert (Hj : (length (st_journal s0) <= jidx)%nat).
+      { rewrite Forall_forall in F. apply (F (i', jidx)). eapply nth_error_In; eauto. }
+      assert (Hk : (k <= length es)%nat) by (unfold k; rewrite J, app_length; lia).
+      exists (skipn k es), (firstn (idx - length (st_revs s0) - 1) rest). split; [|split; [|split]].
+      + ss. rewrite RJ, J, skipn_app. replace (k - length es)%nat with O by lia. reflexivity.
+      + eapply eqv_trans; [apply rewind_eqv; [apply set_revs_eqv | reflexivity]|].
+        rewrite <- rewind_add. rewrite skipn_length. replace (k + (length es - k))%nat with (length es) by lia. exact E.
+      + ss. rewrite R, firstn_app. rewrite firstn_all2 by lia. f_equal.
+        destruct (idx - length (st_revs s0))%nat as [|m] eqn:Ed; [lia|]. cbn [firstn]. f_equal. f_equal. lia.
+      + rewrite Forall_forall in *. intros x Hx. apply F. eapply In_firstn; eauto.
+  Qed.
+
+  Lemma good_clear : forall s s', Good s -> wf s' -> st_revs s' = nil -> st_nextrev s' = st_nextrev s -> Dead s'.
+  Proof. intros s s' (_ & Hn & _) W R N. split; auto. split; [rewrite N; auto|]. rewrite R. cbn; tauto. Qed.
+
+  Lemma dead_step : forall s o, Dead s -> Dead (fst (step s o)).
+  Proof.
+    intros s o (Hw & Hn & Hi). pose proof (step_wf s o Hw) as Hw'. split; auto.
+    destruct (plain o) eqn:Hp.
+    - destruct Hw as [Hk _]. destruct (step_ext s o Hk Hp) as (R & N & _). rewrite R, N. auto.
+    - destruct o; try discriminate.
+      + unfold step, snapshot; ss. split; [lia|]. rewrite map_app, in_app_iff. cbn. intros [H|[H|[]]]; [tauto|lia].
+      + pose proof (revert_to_spec s id) as H. cbn zeta in H. unfold step.
+        destruct (nth_error (st_revs s) (search_rev (st_revs s) id 0)) as [[i j]|]; [destruct (N.eqb i id)|];
+          rewrite H; cbn [fst]; auto.
+        destruct (rewind_journal (length (st_journal s) - j) s) as (_ & RR & RN). ss. rewrite RN. split; auto.
+        intro X. apply Hi. apply in_map_iff in X. destruct X as (x & X1 & X2). apply in_map_iff. exists x; split; auto.
+        eapply In_firstn; eauto.
+      + destruct (finalise_fields de s) as (A & B & _). unfold step; cbn [fst]. rewrite A, B. cbn; tauto.
+      + destruct (intermediate_root_fields de s) as (A & B & _). unfold step; cbn [fst]. rewrite A, B. cbn; tauto.
+      + destruct (commit_fields de s) as (A & B & _). unfold step. destruct (commit de s). cbn [fst] in *. rewrite A, B. cbn; tauto.
+  Qed.
+
+  Lemma good_step : forall s o, Good s -> Good (fst (step s o)) \/ Dead (fst (step s o)).
+  Proof.
+    intros s o G. destruct (plain o) eqn:Hp; [left; apply good_plain; auto|].
+    destruct o; try discriminate.
+    - left. exact (good_snapshot s G).
+    - pose proof (good_revert s id G) as X. unfold step. destruct (revert_to s id); exact X.
+    - right. destruct G as (Hw & G'). destruct (finalise_fields de s) as (A & B & _).
+      apply (good_clear s); auto. split; auto. exact (finalise_wf de s Hw).
+    - right. destruct G as (Hw & G'). destruct (intermediate_root_fields de s) as (A & B & _).
+      apply (good_clear s); auto. split; auto. exact (intermediate_root_wf de s Hw).
+    - right. destruct G as (Hw & G'). destruct (commit_fields de s) as (A & B & _).
+      pose proof (commit_wf de s Hw) as W. unfold step. destruct (commit de s). cbn [fst] in *.
+      apply (good_clear s); auto. split; auto.
+  Qed.
+
+  Lemma run_inv : forall ops s, Good s \/ Dead s -> Good (run ops s) \/ Dead (run ops s).
+  Proof.
+    induction ops as [|o t IH]; intros s H; cbn [run]; auto. apply IH.
+    destruct H as [H|H]; [apply good_step; auto | right; apply dead_step; auto].
+  Qed.
+
+  Lemma good_revert_exact : forall s, Good s ->
+    snd (revert_to s (st_nextrev s0)) = false /\ eqv (fst (revert_to s (st_nextrev s0))) s0.
+  Proof.
+    intros s (Hw & Hn & es & rest & J & E & R & F).
+    pose proof (revert_to_spec s (st_nextrev s0)) as H. cbn zeta in H.
+    destruct Hw as [_ Ha]. rewrite R in Ha.
+    assert (S : search_rev (st_revs s) (st_nextrev s0) 0 = length (st_revs s0)).
+    { rewrite R. erewrite search_found by eauto. reflexivity. }
+    assert (Nth : nth_error (st_revs s) (length (st_revs s0)) = Some (st_nextrev s0, length (st_journal s0))).
+    { rewrite R, nth_error_app2 by lia. rewrite Nat.sub_diag. reflexivity. }
+    rewrite S, Nth, N.eqb_refl in H. rewrite H. cbn [fst snd]. split; auto.
+    eapply eqv_trans; [apply set_revs_eqv|].
+    replace (length (st_journal s) - length (st_journal s0))%nat with (length es) by (rewrite J, app_length; lia).
+    exact E.
+  Qed.
+
+  (** the theorem, on states *)
+  Theorem revert_exact_eqv : forall ops,
+    let s1 := fst (snapshot s0) in
+    let sN := run ops s1 in
+    In (st_nextrev s0) (map fst (st_revs sN)) ->
+    snd (revert_to sN (st_nextrev s0)) = false /\ eqv (fst (revert_to sN (st_nextrev s0))) s0.
+  Proof.
+    intros ops s1 sN Hin.
+    destruct (run_inv ops s1 (or_introl good_init)) as [G|(_ & _ & D)].
+    - apply good_revert_exact; auto.
+    - contradiction.
+  Qed.
+End Revert.
